@@ -47,6 +47,8 @@ def check(ctx):
         if faults:
             distinct.add(json.dumps([beh["mode"], beh["init"], beh["stg0"],
                                      [(s["a"], s["k"], s["ok"]) for s in beh["steps"]]]))
+        if rr.get("diverged"):
+            ctx.cov["diverged_from_model_path"] = ctx.cov.get("diverged_from_model_path", 0) + 1
         if rr["ok"]:
             ctx.cov["traces_validated_against_impl"] += 1
         else:
@@ -54,6 +56,9 @@ def check(ctx):
                           f"[mode={beh['mode']} initial output={beh['init']} schedule="
                           f"{[(s['a'], s['k'], s['ok']) for s in beh['steps']]}]",
                           {"engine": "publish-replay", "behaviour": beh, "observed": rr})
+    if ctx.cov.get("diverged_from_model_path", 0) > len(behs) // 2 and not ctx.violations and not ctx.replay:
+        raise core.ToolError("more than half of the model's behaviours are no longer followed by the code (the property held on each): "
+                             "Publish.tla needs to be brought up to date with the publish routine")
     for beh in behs[:60:13]:
         ctx.add_sample({"kind": "Publish.tla behaviour replayed on the real publish code", "mode": beh["mode"],
                         "init": beh["init"], "schedule": [(s["a"], s["k"], s["ok"]) for s in beh["steps"]],
